@@ -104,12 +104,14 @@ def _op_gen(op, upstream, sink_data, skip_errors, skippable):
       yield emit(chunk)
     return
   for idx, rec in upstream:
+    try:
+      args, kw = get_inputs(rec, op['in'])
+    except (KeyError, IndexError, TypeError) as e:
+      raise RefFailure(idx, e) from e      # fetching inputs is outside the guarded function call: never skippable
     if kind == 'sink':
-      args, _ = get_inputs(rec, op['in'])
       sink_data.append(args[0] if len(args) == 1 else tuple(args))
       yield idx, rec
       continue
-    args, kw = get_inputs(rec, op['in'])
     if kind == 'select':
       yield idx, set_outputs(tr.MISSING, op.get('out') or op['in'], args)
       continue
